@@ -1473,14 +1473,18 @@ fn judge_c15(case: &LCase, o: &LObs, v: &mut Vec<Violation>, probes: &mut Vec<(&
         if let (Some((aseq, _)), Some(_)) = (c.accepted, c.srv_closed) {
             let had_request = c.sent_at_checkpoint > 0 && c.sent[..c.sent_at_checkpoint.min(c.sent.len())].contains(&0u8);
             if aseq < ret_seq && c.srv_first_io.is_none() && had_request && !c.faulted_by_script {
-                v.push(viol(
-                    "C15",
-                    "accepted-connection-dropped",
-                    format!(
-                        "connection {} was accepted (listen() returned {}), its request was waiting, but the server dropped it without ever reading from it",
-                        i, text
-                    ),
-                ));
+                for p in ["C15", "C14"] {
+                    // (C14: an accepted connection is to be served - at once, or when a slot frees -
+                    // never thrown away)
+                    v.push(viol(
+                        p,
+                        "accepted-connection-dropped",
+                        format!(
+                            "connection {} was accepted (listen() returned {}), its request was waiting, but the server dropped it without ever reading from it",
+                            i, text
+                        ),
+                    ));
+                }
             }
         }
     }
